@@ -90,6 +90,20 @@ CHECKS = {
         note="filters are not part of the target alphabet (the property does not list them); target columns compared at 1e-12",
         design="§4 C13",
     ),
+    "C05": dict(
+        engine="E1-family-explorer",
+        technique="exhaustive enumeration of state sets x all permutations of the declaration order x all subsets of restricted states x period-dependent filter x choice/function order on the real solver; every array entry compared with the reference value the layout contract assigns to that index",
+        text="State sets are all non-empty subsets (<= 4) of a pool of three discrete and two continuous states with pairwise different grid sizes. Block P runs ALL permutations of the declaration order (<= 24), block R all subsets of filter-restricted discrete states x period-dependent filter (leading axis length varies by period) x reversed choice and function order. For each of the 500+ models the list length, every array shape and every entry of every period must equal the reference value at the state the documented contract assigns to that index; the reference value is an asymmetric function of the state, so a transposition or re-ordering - also a consistent one inside the library - is flagged.",
+        note="layout contract = mc/refmodel.Ref.to_lcm_layout; 4-state sets get rotations only in the quick tier (all 24 permutations in the thorough tier)",
+        design="§4 C05",
+    ),
+    "C07": dict(
+        engine="E1-family-explorer",
+        technique="exhaustive enumeration of parameter-name assignments (4^5) and ordered stochastic dependency lists (85 x 3 horizons) for the template; per model all single-leaf and single-shock-row perturbations plus a beta sweep against the name-routing reference",
+        text="Template: all 1024 assignments of parameter-name subsets of {a,b} to utility, auxiliary, constraint and two transition functions, and all 85 ordered dependency lists over {h,d,s,g,_period} (<= 3 entries) x T in {1,2,3}: key set, parameter names per function and shock-array shapes must equal the documented contract. Routing: for every Family_1 model and five collision bases (same name in utility, auxiliary, constraint and transition; parameters literally named beta; equal-sized dependencies) every template leaf and every shock row is perturbed alone and beta runs over {0,0.5,0.95,1}; lcm's solution must equal the reference, which routes by function name by construction, in every grid state.",
+        note="pairwise distinct leaf values make any cross-talk visible; simulation rows are checked on the collision bases only (C02 covers rows)",
+        design="§4 C07",
+    ),
 }
 
 NOT_APPLICABLE = {
